@@ -4,6 +4,7 @@ from engine import cfg
 from .common import reachable_local_fns, norm_path, guarded_by_variant, result_of, in_module
 from .server_common import Server
 
+EXTRA_CONFIGS = ('default', 'tokio1', 'serde1', 'serde-transport')   # feature configurations re-analysed in the thorough tier
 META = {
     'level': 'other',
     'technique': 'static edge-guard (Vacant/Ok/Some) and provenance rules over MIR; impl-table typestate query (no Clone, by-value execute); who-may-call / who-may-construct',
